@@ -66,6 +66,9 @@ pub fn run_gate(case: &Value) -> Value {
     let hook = &quant_iron::verif_hooks::PARALLEL_THRESHOLD;
     hook.set(thr);
     hook.reset_hits();
+    // optional "ocl": lower the OpenCL size threshold as well. Without the `gpu` feature the OpenCL branch must not be taken
+    // whatever the register size (the dispatch is `size >= threshold && gpu_enabled`)
+    if let Some(o) = case.get("ocl").map(vu) { quant_iron::verif_hooks::OPENCL_THRESHOLD.set(o); }
     let (op, oracle) = match make_op(kind, &params) {
         Ok(x) => x,
         Err(e) => return json!({"r": "ctor_err", "e": e}),
@@ -78,6 +81,7 @@ pub fn run_gate(case: &Value) -> Value {
     }));
     let hits = hook.hits();
     hook.set(10);
+    quant_iron::verif_hooks::OPENCL_THRESHOLD.set(15);
     let mut out = match r {
         Ok(res) => state_json(res),
         Err(p) => panic_json(p),
